@@ -6,7 +6,7 @@ Predicate     : the clauses of the statement evaluated in Python on the loaded G
                 reachable-one-major, major-distinct, partial-distinct, core-split, minor-distinct, config-exists, partial-content,
                 build-independent.  The same clauses are re-evaluated by the Gallina predicates of Catalogue.v on the
                 implementation's Gene serialised as a Catalogue.catalogue value."""
-import json, os, sys, tempfile
+import json, os, re, sys, tempfile
 import common
 from common import cz, cstr, clist, cpair, cbool, copt
 import c08
@@ -490,7 +490,14 @@ def evaluate(chk, pairs):
                 chk.count(stream, "config-kind:" + c.kind.name)
             for clause, probs in bad.items():
                 for pr in probs[:3]:
-                    chk.fail(clause, dict(ident, shipped=shipped, problem=pr), {"db": label, "build": b, "yaml": yml_text(g, shipped, label)},
+                    extra = {}
+                    mm = re.match(r"majors (\S+) and (\S+) share structure", pr)
+                    if clause == "major-distinct" and mm:
+                        # which two majors coincide: a partial allele F#B of a bare fusion and a catalogued fusion allele with its own core
+                        # variants on the same configuration, or two catalogued alleles
+                        a1, a2 = mm.group(1), mm.group(2)
+                        extra["pair"] = "partial-vs-catalogued-fusion" if ("#" in a1) != ("#" in a2) else "other"
+                    chk.fail(clause, dict(ident, shipped=shipped, problem=pr, **extra), {"db": label, "build": b, "yaml": yml_text(g, shipped, label)},
                              "clause holds", pr)
             if val[0] == 0:
                 chk.mismatch("catalogue-load", ident, "model: the loader raises", "database loads")
